@@ -76,6 +76,8 @@ structure Msg where
   grp : Nat := 0
   /-- where the sending call reported its error -/
   errAt : Option (Nat × Nat) := none
+  /-- where the message entered the receiver's handler queue -/
+  enq : Option (Nat × Nat) := none
 
 /-- One notifying method that addresses several sessions. -/
 structure Fan where
@@ -110,6 +112,7 @@ def parseMsg (toks : List String) (impl : String) : Option Msg := do
   let ret ← fld "ret"
   let beg ← fld "beg"
   let fin ← fld "fin"
+  let enq := (fld "enq").getD none
   let err ← kv o "err"
   let n ← (← kv o "n").toNat?
   if dir != "c2s" && dir != "s2c" then none
@@ -118,7 +121,7 @@ def parseMsg (toks : List String) (impl : String) : Option Msg := do
   let grp := ((kv toks "of").bind (·.toNat?)).getD 0
   pure { body := body, id := id, toServer := dir == "c2s", isCall := k != "n", meth := meth, kindTok := k,
          snd := snd, ret := if err == "1" then none else ret, err := err == "1", beg := beg, fin := fin, n := n,
-         to := to, grp := grp, errAt := if err == "1" then ret else none }
+         to := to, grp := grp, errAt := if err == "1" then ret else none, enq := enq }
 
 def parseFan (toks : List String) (impl : String) : Option Fan := do
   let g ← (← toks[0]?).toNat?
@@ -199,6 +202,7 @@ def fanEvents (st : St) : List (Nat × FEv) :=
   let evs := st.msgs.foldl (fun acc m =>
     let ps := bodyPreds st.msgs m
     let acc := add (add (add (add acc m.snd (FEv.msg (if ps.isEmpty then .snd m.id else .bsnd ps m.id))) m.ret (.msg (.ret m.id))) m.beg (.msg (.beg m.id))) m.fin (.msg (.fin m.id))
+    let acc := add acc m.enq (.enq m.id)
     if m.grp != 0 && syncG m.grp then add acc m.errAt (.ferr m.id) else acc) []
   let evs := st.fans.foldl (fun acc f => if f.sync then add (add acc f.call (.fcall f.g)) f.done (.fret f.g) else acc) evs
   sortEvs evs
@@ -235,6 +239,13 @@ def settle (kind : Nat → Kind) (s : State) : Nat → State
       | none => s
     | none, [] => s
 
+/-- The model has ONE FIFO between `write` and `disp`; the implementation reports the order in which the messages
+of a pair entered the last of its queues (`enq`, `order`).  The search places the `write` labels in that order: a
+message that was seen entering the queue may be written only when everything that entered before it has been. -/
+def mayWrite (order : List Nat) (s : State) (k : Nat) : Bool :=
+  !order.contains k ||
+    (order.find? fun x => s.phase x == .unsent || s.phase x == .sending) == some k
+
 /-- Result of a search: events matched on the best attempt, success, step budget left. -/
 structure SR where
   pos : Nat
@@ -247,45 +258,45 @@ next event is not enabled, and then any sending message may be written (backtrac
 `write` to the right past an event that is enabled without it preserves being a run (no visible label is
 disabled by a message still being outside the queue, `disp`/`rel` are taken eagerly anyway, and the order
 among the writes is kept), so this finds a run whenever there is one. -/
-partial def searchLazy (kind : Nat → Kind) (ids : List Nat) (s : State) (evs : List (Nat × Ev)) (pos fuel : Nat) : SR :=
+partial def searchLazy (kind : Nat → Kind) (order : List Nat) (ids : List Nat) (s : State) (evs : List (Nat × Ev)) (pos fuel : Nat) : SR :=
   let s := settle kind s (2 * ids.length + 2)
   match evs with
   | [] => ⟨pos, true, fuel⟩
   | (_, e) :: rest =>
     match step kind s e.label with
-    | some s' => searchLazy kind ids s' rest (pos + 1) fuel
+    | some s' => searchLazy kind order ids s' rest (pos + 1) fuel
     | none =>
-      (ids.filter fun k => s.phase k == .sending).foldl (fun (best : SR) k =>
+      (ids.filter fun k => s.phase k == .sending && mayWrite order s k).foldl (fun (best : SR) k =>
         if best.ok || best.fuel == 0 then best else
           match step kind s (.write k) with
           | some s' =>
-            let r := searchLazy kind ids s' evs pos (best.fuel - 1)
+            let r := searchLazy kind order ids s' evs pos (best.fuel - 1)
             if r.ok || r.pos > best.pos then r else { best with fuel := r.fuel }
           | none => best) ⟨pos, false, fuel⟩
 
 /-- Exhaustive variant (any sending message may be written before any event), bounded by the step budget. -/
-partial def searchAll (kind : Nat → Kind) (ids : List Nat) (s : State) (evs : List (Nat × Ev)) (pos fuel : Nat) : SR :=
+partial def searchAll (kind : Nat → Kind) (order : List Nat) (ids : List Nat) (s : State) (evs : List (Nat × Ev)) (pos fuel : Nat) : SR :=
   let s := settle kind s (2 * ids.length + 2)
   match evs with
   | [] => ⟨pos, true, fuel⟩
   | (_, e) :: rest =>
     if fuel == 0 then ⟨pos, false, 0⟩ else
     let direct : SR := match step kind s e.label with
-      | some s' => searchAll kind ids s' rest (pos + 1) (fuel - 1)
+      | some s' => searchAll kind order ids s' rest (pos + 1) (fuel - 1)
       | none => ⟨pos, false, fuel - 1⟩
     if direct.ok then direct else
-      (ids.filter fun k => s.phase k == .sending).foldl (fun (best : SR) k =>
+      (ids.filter fun k => s.phase k == .sending && mayWrite order s k).foldl (fun (best : SR) k =>
         if best.ok || best.fuel == 0 then best else
           match step kind s (.write k) with
           | some s' =>
-            let r := searchAll kind ids s' evs pos (best.fuel - 1)
+            let r := searchAll kind order ids s' evs pos (best.fuel - 1)
             if r.ok || r.pos > best.pos then r else { best with fuel := r.fuel }
           | none => best) direct
 
-def search (kind : Nat → Kind) (ids : List Nat) (s : State) (evs : List (Nat × Ev)) (pos : Nat) : Nat × Bool :=
-  let r := searchLazy kind ids s evs pos 20000
+def search (kind : Nat → Kind) (order : List Nat) (ids : List Nat) (s : State) (evs : List (Nat × Ev)) (pos : Nat) : Nat × Bool :=
+  let r := searchLazy kind order ids s evs pos 20000
   if r.ok then (r.pos, true) else
-    let r2 := searchAll kind ids s evs pos 20000
+    let r2 := searchAll kind order ids s evs pos 20000
     if r2.ok then (r2.pos, true) else (max r.pos r2.pos, false)
 
 /-- Ephemeral sessions: no invisible labels, the event sequence itself must be a run of `stepE`. -/
@@ -301,7 +312,8 @@ def searchE (s : State) (evs : List (Nat × Ev)) (pos : Nat) : Nat × Bool :=
 def acceptPair (ephemeral : Bool) (msgs : List Msg) (pair : Nat) : Option Nat :=
   let evs := eventsOf msgs pair
   let ids := (msgs.filter fun m => m.pair == pair).map (·.id)
-  let r := if ephemeral then searchE init evs 0 else search (kindFn msgs) ids init evs 0
+  let order := (sortEvs ((msgs.filter fun m => m.pair == pair).filterMap fun m => m.enq.map fun q => (q.1, m.id))).map (·.2)
+  let r := if ephemeral then searchE init evs 0 else search (kindFn msgs) order ids init evs 0
   if r.2 then none else
     match evs[r.1]? with
     | some (q, _) => some q
@@ -328,7 +340,7 @@ def orderJudge (st : St) : Option Clause :=
     -- on its own events with the single-pair configuration (`Order.pair_monitor_accepts_runs`,
     -- `Order.pair_monitor_accepts_ephemeral_runs`)
     let cfg : Cfg := { kind := kindFn st.msgs, pair := fun _ => 0, copies := fun _ => [], grp := fun _ => none }
-    [0, 1].findSome? fun p => orderClause cfg ((eventsOf st.msgs p).map fun e => FEv.msg e.2)
+    [0, 1].findSome? fun p => orderClause cfg (((fanEvents { st with msgs := st.msgs.filter fun m => m.pair == p }).map (·.2)))
 
 def orderText (st : St) : Option String :=
   (orderJudge st).map fun cl =>
@@ -344,6 +356,11 @@ def orderText (st : St) : Option String :=
     match cl with
     | .sameBody i j =>
       render i j s!"although {i} stands before {j} in the POST body (JSON-RPC batch) that carried both: messages of one peer must be dispatched in the order they were sent"
+    | .bodyDispatch i j =>
+      let toServer := match find i with | some m => m.toServer | none => true
+      let dir := if toServer then "client→server" else "server→client"
+      let peer := if st.np > 1 then match find i with | some m => s!" (peer {m.to})" | none => "" else ""
+      s!"C03: {dir}{peer}: message {name j} entered the handler queue of the receiving connection before message {name i} did, although {i} stands before {j} in the POST body (JSON-RPC batch) that carried both: messages of one peer are dispatched to handlers in the order they were sent, whatever their kinds"
     | .laterSend i j =>
       let acked := match find i with
         | some m => if m.body != 0 then s!" (the POST that carried {i} had been answered: an acknowledgement may be given only after the messages are queued)" else ""
